@@ -132,7 +132,9 @@ def savi_run(ref, g, eps, test, ks, V0, mb, d, perms=None, marg=None):
     for k in ks:
         conv = False
         for _ in range(k):
-            order = perms[sw] if perms is not None and perms[sw] is not None else list(range(n))
+            # (the implementation may have made FEWER sweeps than this reference needs - e.g. it stopped too early; the comparison
+            #  then reports the iteration mismatch, it must not crash here)
+            order = perms[sw] if perms is not None and sw < len(perms) and perms[sw] is not None else list(range(n))
             new = gs_sweep(ref, g, V, order, bs, nb, d)
             sw += 1
             m = measure(test, new, V)
